@@ -27,7 +27,7 @@ enum Ty {
 const INT_TYPES: [Ty; 12] = [Ty::U8, Ty::I8, Ty::U16, Ty::I16, Ty::U32, Ty::I32, Ty::U64, Ty::I64, Ty::U128, Ty::I128, Ty::Usize, Ty::Isize];
 
 #[derive(Serialize, Deserialize, Debug, Clone, Hash)]
-struct Case {
+pub struct Case {
     ty: Ty,
     s: String,
 }
@@ -129,7 +129,7 @@ fn check_bool(s: &str) -> Result<(), String> {
     Ok(())
 }
 
-fn run_case(c: &Case) -> Result<(), String> {
+pub fn run_case(c: &Case) -> Result<(), String> {
     let s = c.s.as_str();
     match c.ty {
         Ty::U8 => check_int::<u8>("u8", s, false, kp::parse_u8, |p| p.parse_u8()),
@@ -364,7 +364,7 @@ fn explore(ctx: &mut Ctx) {
     });
 }
 
-fn fold_case(t: usize, syms: &[usize]) -> Case {
+pub fn fold_case(t: usize, syms: &[usize]) -> Case {
     const SYM: [&str; 14] = ["0", "1", "2", "3", "4", "5", "6", "7", "8", "9", "-", "+", "x", "٣"];
     // digits dominate: indices 10.. only appear when drawn
     let ty = if t == 12 { Ty::Bool } else { INT_TYPES[t] };
